@@ -5,9 +5,10 @@ import hashlib
 import warnings
 
 from .common import Oracle, Suite, errname, hx, merge
+from .C02_formats import correspond_formats, replay_formats, search_formats
 
 GEN_UNITS = ["ShaCrypt", "B64"]
-LEAN_TARGETS = ["PasslibVerif.Props.C02"]
+LEAN_TARGETS = ["PasslibVerif.Props.C02", "PasslibVerif.Props.C02Formats"]
 ASSUMPTIONS = [
     "hashlib's MD5/SHA-256/SHA-512 are external C code: the theorems are about passlib's control structure over the FIPS 180-4 / RFC 1321 "
     "transcriptions (Spec.SHA256/SHA512/MD5); hashlib = transcription is checked on every run (suite digests) and is not a theorem",
@@ -23,8 +24,14 @@ EXPLANATION = (
     "compiled specification vs the real functions on the length/rounds grid of the property; OS crypt() as a third implementation."
 )
 ONLY_CORRESPONDENCE = [
-    "formats other than md5-crypt/apr/sha256-crypt/sha512-crypt: compared with independent implementations (OS crypt, hashlib compositions, Django) on the real code; "
-    "their primitives (DES, Blowfish/bcrypt, scrypt, MD4, HMAC, PBKDF1/2) have theorems under C11"
+    "formats other than md5-crypt/apr/sha256-crypt/sha512-crypt: the checksum the real hasher produces is compared with the executable Lean specification "
+    "written from the format's published description (Spec/Formats/*.lean, driver word `sfmt`) over the property's grid, and with independent third "
+    "implementations (C library crypt(), hashlib.pbkdf2_hmac / hashlib.scrypt, the bcrypt package, Django's hashers, hashlib compositions); "
+    "their primitives (DES, Blowfish/bcrypt, scrypt, MD4, HMAC, PBKDF1/2) have theorems under C11; Props.C02Formats relates the format specifications to each other",
+    "text steps that the published descriptions leave to the caller are applied by the harness: SASLprep for scram (inputs are SASLprep fixed points), "
+    "the OEM code page for lmhash (cp437 on the Python side for str secrets), Unicode case mapping beyond ASCII for oracle10 / mssql2000 / msdcc user names "
+    "(inputs are ASCII letters plus caseless characters)",
+    "bcrypt `$2x$` is refused by passlib and not specified; argon2 has no backend in the sandbox",
 ]
 
 LENS = [0, 1, 7, 8, 9, 15, 16, 17, 55, 56, 63, 64, 65, 72, 73, 95, 96, 97, 127, 128, 129, 255, 256]
@@ -139,7 +146,7 @@ def correspond(ctx):
         n = rng.choice([0, 1, len(src) - 1, len(src), len(src) + 1, 2 * len(src), 2 * len(src) + 1, rng.randrange(0, 300)])
         s_rep.add(f"shac repeat {hx(src)} {n}", lambda s=src, n=n: repeat_string(s, n).hex() or "", "passlib")
         s_rep.add(f"shac repeat {hx(src)} {n}", lambda s=src, n=n: lp_repeat(s, n).hex() or "", "libpass")
-    return merge(s_model, s_spec, s_dig, s_rep, o_os)
+    return merge(s_model, s_spec, s_dig, s_rep, o_os, *correspond_formats(ctx))
 
 
 # ------------------------------------------------------------------------------------------
@@ -231,6 +238,11 @@ def py_md5_crypt(pwd: bytes, salt: bytes, magic: bytes):
 
 
 def search(ctx, broken, seeds):
+    """the four crypt formats first, then every other format against its independent third implementations"""
+    return _search_shacrypt(ctx, broken, seeds) or search_formats(ctx)
+
+
+def _search_shacrypt(ctx, broken, seeds):
     """the property's statement on the real code: the produced string equals an independent implementation of the published algorithm,
     and the independent implementation's strings verify under passlib — through the public hasher interface."""
     warnings.simplefilter("ignore")
@@ -278,5 +290,7 @@ def replay(ctx, inp):
         else:
             got, want = m5._raw_md5_crypt(pwd, salt[:8], f == "apr_md5_crypt"), py_md5_crypt(pwd, salt[:8].encode(), b"$apr1$" if f == "apr_md5_crypt" else b"$1$")
         return {"fails": got != want, "observed": got, "expected": want}
-    r = search(ctx, [], [])
+    if inp.get("op") == "formats":
+        return replay_formats(ctx, inp)
+    r = _search_shacrypt(ctx, [], [])
     return {"fails": r is not None, "observed": r}
